@@ -1066,6 +1066,20 @@ func (sc *specCtx) expandSpec(f *SpecFunc, args []SV, rt types.Type) SV {
 // application) in functions whose contract says `reveal <name>`.
 func (sc *specCtx) opaqueCall(f *SpecFunc, args []SV, rt types.Type) SV {
 	e := sc.e
+	if e.opaqueActive == nil {
+		e.opaqueActive = map[string]int{}
+	}
+	if e.opaqueActive[f.Name] > 0 {
+		// a recursive occurrence inside the function's own definition: stays an application of the
+		// same uninterpreted symbol (the heap arguments of the enclosing call are filled in below)
+		var as []string
+		for _, a := range args {
+			as = append(as, sc.mat(a))
+		}
+		return SV{T: fmt.Sprintf("(@rec!%s %s)", f.Name, strings.Join(as, " ")), Ty: rt}
+	}
+	e.opaqueActive[f.Name]++
+	defer func() { e.opaqueActive[f.Name]-- }()
 	savedRec := e.heapRec
 	e.heapRec = map[string]string{}
 	savedGuard := sc.guard
@@ -1093,6 +1107,7 @@ func (sc *specCtx) opaqueCall(f *SpecFunc, args []SV, rt types.Type) SV {
 		key += "_" + sanitize(h)
 	}
 	e.declFun(key, sorts, sc.sortOf(rt))
+	bodyT = fillRecursive(bodyT, "(@rec!"+f.Name+" ", key, as[len(args):])
 	t := fmt.Sprintf("(%s %s)", key, strings.Join(as, " "))
 	if len(as) == 0 {
 		t = key
@@ -1199,4 +1214,33 @@ func sexprString(x SExpr) string {
 		return "forall/exists ... :: " + sexprString(n.Body)
 	}
 	return fmt.Sprintf("%T", x)
+}
+
+// fillRecursive rewrites every placeholder application "(@rec!f a b)" in t to "(key a b h1 h2)".
+func fillRecursive(t, marker, key string, heaps []string) string {
+	for {
+		i := strings.Index(t, marker)
+		if i < 0 {
+			return t
+		}
+		// find the closing parenthesis of this application
+		depth, j := 0, i
+		for ; j < len(t); j++ {
+			if t[j] == '(' {
+				depth++
+			} else if t[j] == ')' {
+				depth--
+				if depth == 0 {
+					break
+				}
+			}
+		}
+		inner := t[i+len(marker) : j]
+		repl := "(" + key + " " + inner
+		if len(heaps) > 0 {
+			repl += " " + strings.Join(heaps, " ")
+		}
+		repl += ")"
+		t = t[:i] + repl + t[j+1:]
+	}
 }
